@@ -281,6 +281,43 @@ theorem truncated_config (c : Config) (h : wfConfig c) (p : Bytes) (hp : p <+: e
 
 example : wfConfig ⟨[⟨2, [97], true, [], 0⟩, ⟨1, [98], false, [120], 1⟩], 5, 3⟩ := by decide
 
+theorem length_encNode (n : Node) : (encNode n).length = 18 + n.addr.length + n.data.length := by
+  simp [encNode]; omega
+
+theorem length_encList_mem {α : Type} (enc : α → Bytes) (xs : List α) (x : α) (h : x ∈ xs) :
+    (enc x).length ≤ (encList enc xs).length := by
+  induction xs with
+  | nil => simp at h
+  | cons y ys ih =>
+    simp only [encList, List.length_append]
+    rcases List.mem_cons.mp h with h | h
+    · subst h; omega
+    · have := ih h; omega
+
+theorem length_encList_ge {α : Type} (enc : α → Bytes) (xs : List α)
+    (h : ∀ x, 1 ≤ (enc x).length) : xs.length ≤ (encList enc xs).length := by
+  induction xs with
+  | nil => simp
+  | cons y ys ih =>
+    simp only [encList, List.length_append, List.length_cons]
+    have := h y; omega
+
+/-- the guard of `roundtrip_config` is exactly: the encoded node list fits the `uint32`
+length prefix of the entry that carries it. -/
+theorem wfConfig_iff (c : Config) : wfConfig c ↔ (configData c).length < 2 ^ 32 := by
+  constructor
+  · exact fun h => h.2.2
+  · intro h
+    have hl : (configData c).length = 4 + (encList encNode c.nodes).length := by
+      simp [configData]
+    refine ⟨?_, ?_, h⟩
+    · have := length_encList_ge encNode c.nodes (fun n => by rw [length_encNode]; omega)
+      omega
+    · intro n hn
+      have := length_encList_mem encNode c.nodes n hn
+      rw [length_encNode] at this
+      unfold wfNode
+      omega
 /-- A Go map whose keys are the node ids has a unique id-sorted listing `c.nodes`; whatever
 iteration order `order` the encoder happens to use, decoding returns exactly `c`. -/
 theorem roundtrip_config_map (c : Config) (order : List Node) (tail : Bytes)
@@ -589,6 +626,10 @@ theorem truncated_adminReq (r : AdminReq) (h : wfAdminReq r) (p : Bytes)
     ∃ err, decAdminReq p = .error err ∧ err.isEof = true :=
   truncated_of_roundtrip' (fun t => roundtrip_adminReq r t h) hp hne
 
+example : wfAdminReq (.changeConfig ⟨[⟨2, [97], true, [], 0⟩, ⟨3, [98], false, [], 1⟩], 5, 3⟩) := by
+  decide
+example : wfAdminReq (.transferLdr 2 18446744073709551615) := by decide
+
 theorem isValidTask_typ (r : AdminReq) : isValidTask r.typ = true := by
   cases r <;> simp [AdminReq.typ] <;> decide
 
@@ -765,6 +806,7 @@ open RaftVerif.C18
 #print axioms truncated_node
 #print axioms roundtrip_config
 #print axioms truncated_config
+#print axioms wfConfig_iff
 #print axioms roundtrip_config_map
 #print axioms canonConfig_idem
 #print axioms canonConfig_of_sorted
